@@ -189,6 +189,25 @@ CHECKS = {
              "location construction.",
         technique="TLA+ model checking of the scheme + trace validation of recorded symbols (TLC)",
         ref="DESIGN.md section 4 C27"),
+    "C28": dict(
+        engine="Imports",
+        category="model_checking",
+        text="Imports.tla fixes a directory tree (working directory with a sub-directory and a "
+             "non-.capy file, a directory outside, a module directory with / without mod.capy), "
+             "enumerates configurations of #import / #mod directives (with `..`, `.`, self and "
+             "cyclic imports, missing, non-.capy and outside targets, non-alphanumeric module "
+             "names), prescribes per directive the rejection reasons and the resolution target, "
+             "the closure of compiled files and what `file.id` denotes, and model-checks the CLI's "
+             "import work-list as a state machine (parses exactly the closure, no file twice, "
+             "terminates - for every configuration). Every relevant configuration is materialised "
+             "on disk and built with the repository's own CLI under strace: exit status, "
+             "diagnostics per rejected directive, program output and one read per compiled file.",
+        note="quick: <= 2 directives in main.capy, <= 1 in a.capy and d/b.capy (seed-selected "
+             "third of the two-directive configurations); thorough: all of them and <= 2 in the "
+             "other files. The CLI is crates/capy/src/main.rs compiled inside the harness workspace. "
+             "Trusted: TLC, strace, the message -> diagnostic-kind table in tools/props/c28.py.",
+        technique="TLA+ model checking of the import work-list + spec-to-implementation replay (CLI)",
+        ref="DESIGN.md section 4 C28"),
 }
 
 PLANNED = {}
